@@ -12,7 +12,8 @@ RULE = ("requests / responses / chunks / last-chunks built through tx_request, t
         "components (all 8 method ids and arbitrary upper-case methods, targets, versions, every header id of the enumeration "
         "and arbitrary token names, values without line breaks, bodies, chunk sizes incl. hex-width edges, extensions, trailers) "
         "and fed to a receiver whose limits admit them; the expected start line, header map, framing and payload follow from "
-        "the components; hex/dec number round trips; distinct = distinct component tuple; all are non-trivial")
+        "the components; messages whose Content-Length the application states itself next to fields that only mention a framing "
+        "header in their name or value; hex/dec number round trips; distinct = distinct component tuple; all are non-trivial")
 TRUSTED_BASE = ["tools/cxx2lean.py (translator of the parse_char / parse state machines and of message_headers::parse and rx_chunk::parse: RL, SL, FL, CH from the current C++ into Lean; the model is proved equal to the translation in ViaProofs/Trans)", "Lean 4.33 kernel", "axioms: propext, Classical.choice, Quot.sound at most",
                 "tools/extract.py (header name tables, reason phrases, method names re-extracted every run)",
                 "rx_driver + via_model driver"]
@@ -20,6 +21,11 @@ ASSUMPTIONS = ["valid components: method upper-case within the limit, target wit
                "without CR/LF and without leading blanks, status within the limit, reason without line ends"]
 
 NHDR = 48
+
+# header fields that mention a framing header without being one
+DECOYS = [(b"X-Upload-Content-Length", b"2000000"), (b"Access-Control-Request-Headers", b"Content-Length, Content-Type"),
+          (b"X-Original-Content-Length", b"7"), (b"Vary", b"Transfer-Encoding"), (b"X-Note", b"see Content-Length: below"),
+          (b"Access-Control-Expose-Headers", b"Transfer-Encoding"), (b"X-Transfer-Encoding", b"none")]
 
 
 def expected_hdrs(pairs):
@@ -58,6 +64,14 @@ def generate(tier, rng):
         named = [(a, b) for a, b in named if a.lower() not in (b"content-length", b"transfer-encoding", b"host", b"expect", b"connection")
                  and b"content-length" not in a.lower() and b"transfer-encoding" not in a.lower()]
         body = rng.bytes(rng.choice([0, 1, 10, 300]))
+        own = None
+        if rng.chance(1, 5):
+            # the application states the (correct) Content-Length itself, next to fields that merely MENTION a framing
+            # header: as the tail of their name or inside their value, before or after the real one
+            own = rng.choice(["decoy-first", "decoy-last", "alone"])
+            decoys = [rng.choice(DECOYS) for _ in range(rng.range(1, 2))] if own != "alone" else []
+            real = [(b"Content-Length", b"%d" % len(body))]
+            named = named + (decoys + real if own == "decoy-first" else real + decoys)
         args = ["encfeed-req"]
         args.append("mid=%d" % mid if use_id else "m=" + hx(method))
         args += ["u=" + hx(target), "v=" + hx(version), "hs=" + hx(b"Host: h\r\n")]
@@ -68,7 +82,7 @@ def generate(tier, rng):
         args.append("b=" + hx(body))
         cases.append(Case("c08-%d" % n, [cfg.new_line(), " ".join(args)],
                           {"kind": "req", "method": mname, "target": target, "version": version, "ids": ids, "named": named,
-                           "body": body, "tags": ["req"]}))
+                           "body": body, "own": own, "tags": ["req"] + (["req-own-" + own] if own else [])}))
         n += 1
     # --- responses (fixed length)
     for i in range(1500 if quick else 8000):
@@ -91,9 +105,17 @@ def generate(tier, rng):
             args.append("rs=" + hx(reason))
         if ids:
             args.append("addid=" + ",".join("%d:%s" % (a, hx(b)) for a, b in ids))
+        own = None
+        if rng.chance(1, 5):
+            own = rng.choice(["decoy-first", "decoy-last", "alone"])
+            decoys = [rng.choice(DECOYS)] if own != "alone" else []
+            real = [(b"Content-Length", b"%d" % len(body))]
+            named = decoys + real if own == "decoy-first" else real + decoys
+            args.append("add=" + ",".join("%s:%s" % (hx(a), hx(b)) for a, b in named))
         args.append("b=" + hx(body))
         cases.append(Case("c08-%d" % n, [rcfg.new_line(), " ".join(args)],
-                          {"kind": "resp", "status": st, "reason": reason, "ids": ids, "body": body, "tags": ["resp"]}))
+                          {"kind": "resp", "status": st, "reason": reason, "ids": ids, "body": body,
+                           "tags": ["resp"] + (["resp-own-" + own] if own else [])}))
         n += 1
     # --- chunked exchange with extension and trailers, through both receivers
     for i in range(1000 if quick else 5000):
@@ -147,7 +169,9 @@ def oracle(case, out):
                  b"Proxy-Authenticate", b"Retry-After", b"Server", b"Vary", b"WWW-Authenticate", b"Allow", b"Content-Encoding",
                  b"Content-Language", b"Content-Length", b"Content-Location", b"Content-MD5", b"Content-Range", b"Content-Type",
                  b"Expires", b"Last-Modified", b"extension-header"]
-        pairs = [(b"Host", b"h")] + [(names[i], v) for i, v in m["ids"]] + list(m["named"]) + [(b"Content-Length", b"%d" % len(m["body"]))]
+        pairs = [(b"Host", b"h")] + [(names[i], v) for i, v in m["ids"]] + list(m["named"])
+        if not m.get("own"):
+            pairs.append((b"Content-Length", b"%d" % len(m["body"])))
         early = m["version"] == b"10"
         conn = G.hdr_map_str([(a.lower(), b) for a, b in pairs])[1].get(b"connection", b"")
         exp = "VALID m=%s u=%s v=%s h=%s b=%s head=0 chunked=0 ka=%d" % (
